@@ -25,7 +25,7 @@ Print Assumptions C15_resolution_three_levels.
 
 (** [BenchOptions::overwrite] itself: field-wise [Option::or], for every field. *)
 Theorem C15_overwrite_fieldwise : forall (fd : field) (a b : options),
-  get fd (overwrite a b) = match get fd a with Some v => Some v | None => get fd b end.
+  get fd (overwrite a b) = opt_or (get fd a) (get fd b).
 Proof. exact get_overwrite. Qed.
 Print Assumptions C15_overwrite_fieldwise.
 
